@@ -672,4 +672,30 @@ def shear_unit_direction(repo: Repo) -> RuleRun:
 shear_unit_direction.rule_id = "C07.SHEAR-UNIT-DIRECTION"
 
 
-RULES = [kind_registry, dedup, direction, reversal, face_edge_slots, curve_direction, edge_slots, length_direction, arc_side, validity_tolerance, own_edge_data, no_memo, reflex_midpoint, arguments_untouched, beam_list, shared_curve, collinearity_scale_free, arc_sense, no_alias_store, shear_unit_direction]
+
+def project_merge(repo: Repo) -> RuleRun:
+    """'every user-defined ... edge is written ... with the kind and data given': an edge projected to two surfaces is written with both. Two neighbouring sides projected with edges=True, in both orders (abstract run of Operation.project_side; same scenarios as in C10.SIDE-ADDRESSING)."""
+    from . import c10
+
+    r = RuleRun(PROP, "C07.PROJECT-MERGE", floor=8, what="the vertical edge shared by two projected sides carries both surfaces, whichever side is projected first")
+    n = c10.project_two_sides(repo, r)
+    r.require(n >= 8, f"only {n} two-side scenarios evaluated")
+    return r
+
+
+project_merge.rule_id = "C07.PROJECT-MERGE"
+
+
+
+def closest_search(repo: Repo) -> RuleRun:
+    """'a curve-snapped edge is written with the points of the curve between its two vertices': the parameters of the two ends are found by a search that covers the curve's own parameter range. Same rule as C16.CLOSEST-SEARCH."""
+    from ..report import rebrand
+    from . import c16
+
+    return rebrand(c16.closest_param_search(repo), PROP, "C07.CLOSEST-SEARCH")
+
+
+closest_search.rule_id = "C07.CLOSEST-SEARCH"
+
+
+RULES = [kind_registry, dedup, direction, reversal, face_edge_slots, curve_direction, edge_slots, length_direction, arc_side, validity_tolerance, own_edge_data, no_memo, reflex_midpoint, arguments_untouched, beam_list, shared_curve, collinearity_scale_free, arc_sense, no_alias_store, shear_unit_direction, project_merge, closest_search]
